@@ -102,7 +102,16 @@ def table(ds, spec):
     if spec.get("acc"):
         for col in cols:
             run = 0.0
-            for i in range(nrows):
+            if any((not isinstance(c, tuple)) and c != c for c in col) and metric not in ("obs", "fcst"):
+                # an undefined score may be NaN (counted as 0) or +-inf (which -acc turns into a huge number):
+                # the running sum is not determined by the documentation from there on
+                first = min(i for i, c in enumerate(col) if (not isinstance(c, tuple)) and c != c)
+                for i in range(first, nrows):
+                    col[i] = None
+                nrows_ = first
+            else:
+                nrows_ = nrows
+            for i in range(nrows_):
                 ci_ = col[i][0] if isinstance(col[i], tuple) else col[i]
                 run += 0.0 if ci_ != ci_ else ci_
                 col[i] = run
@@ -175,6 +184,8 @@ def compare_table(got_header, got_rows, ref, sig=6, textfmt=False):
                     return "row %d descriptor %r is not a number (documented %r)" % (i, g[j], w)
         for k, w in enumerate(r["values"]):
             txt = g[nd + k].strip()
+            if w is None:
+                continue
             if isinstance(w, tuple):
                 if not any((x != x and txt.lower() == "nan") or (x == x and vutil.close_text_number(txt, x, sig)) for x in w):
                     return "row %d column %d: %s, reference one of %r" % (i, k, txt, w)
